@@ -50,7 +50,7 @@ SENSOR_PROPS.update({
                   'transform': lambda act: SIMPLIFY_STATE.get(act, 'stop')},
     '*ap_indexer_position': {'initial_value': ''},
     '*noise_diode': {'categorical': True, 'greedy_values': (True,),
-                     'initial_value': 0.0, 'transform': lambda x: x > 0.0},
+                     'initial_value': False, 'transform': lambda x: x > 0.0},
     '*serial_number': {'initial_value': 0},
     '*target': {'initial_value': '', 'transform': _robust_target},
 })
